@@ -50,7 +50,9 @@ pub fn gen_layout(s: &Spec, n_items: usize, d: &mut D) -> Layout {
     let nf = d.weighted(&[5, 3, 2, 1]);
     for _ in 0..nf {
         let pos = d.below(lay.groups.len() + 1);
-        lay.foreign.push((pos, d.pick(FOREIGN).to_string()));
+        // (doc comments are no foreign attributes for a receiver that claims `doc`)
+        let pool = if names.iter().any(|n| n == "doc") { &FOREIGN[2..] } else { FOREIGN };
+        lay.foreign.push((pos, d.pick(pool).to_string()));
     }
     lay
 }
